@@ -696,7 +696,9 @@ int __wrap_pthread_cond_timedwait(pthread_cond_t* c, pthread_mutex_t* m, const s
     if (abs->tv_nsec < 0 || abs->tv_nsec >= 1000000000L) { log_event("timedwait-einval"); return EINVAL; }
     // deadline is on CLOCK_REALTIME: convert to sim ns
     __int128 d = (__int128)abs->tv_sec * 1000000000 + abs->tv_nsec - G->cfg.epoch_real_ns;
-    int64_t dl = d < 0 ? 0 : (d > (__int128)INT64_MAX / 2 ? INT64_MAX / 2 : (int64_t)d);
+    // a deadline more than 10^15 ns (11 days) of simulated time ahead never expires in a run: it is an untimed wait for the simulator
+    // (and keeps the simulated clock inside what 64-bit nanoseconds can hold)
+    int64_t dl = d < 0 ? 0 : (d > (__int128)G->now + 1000000000000000ll ? -1 : (int64_t)d);
     return sim_cond_wait(c, m, dl);
 }
 int __wrap_pthread_cond_signal(pthread_cond_t* c) {
